@@ -80,10 +80,13 @@ Section Main.
     destruct v; try discriminate.
     destruct (Model_Txn.finish frows rb' (m_frags cur) nd) as [o'| | |] eqn:Ef; try discriminate.
     exists mr, cur, rb', o'.
-    destruct o'; try (destruct (build_manifest cur _) as [m'| |] eqn:Eb; [|discriminate|discriminate]; inversion H; subst;
-      exists m'; repeat split; auto; right; split; [intros v0 Q; discriminate | exact Eb]).
-    destruct (nth_man h v) as [old|] eqn:En; [|discriminate]. inversion H; subst.
-    exists (restore_manifest cur old). repeat split; auto. left. exists v, old. auto.
+    destruct o'; cbn beta iota in H;
+      try (match type of H with context [build_manifest cur ?oo] => destruct (build_manifest cur oo) as [m'| |] eqn:Eb end;
+           [|discriminate|discriminate]; exists m'; split; [reflexivity|]; split; [reflexivity|]; split; [exact Ec|];
+           split; [exact Ef|]; split; [inversion H; reflexivity|]; right; split; [intros v0 Q; discriminate | reflexivity]).
+    match type of H with context [nth_man h ?x] => destruct (nth_man h x) as [old|] eqn:En; [|discriminate];
+      exists (restore_manifest cur old); split; [reflexivity|]; split; [reflexivity|]; split; [exact Ec|];
+      split; [exact Ef|]; split; [inversion H; reflexivity|]; left; exists x, old; auto end.
   Qed.
 
   Lemma latest_snoc : forall h e, latest (h ++ [e]) = Some (v_man e).
@@ -94,14 +97,11 @@ Section Main.
     replace (N.to_nat (N.succ (N.of_nat (length h)) - 1)) with (length h) by lia.
     rewrite nth_error_app2 by lia. rewrite Nat.sub_diag. reflexivity.
   Qed.
-  Lemma latest_last_entry : forall h cur, latest h = Some cur -> exists e, last h e = e /\ False \/ exists h0 e0, h = h0 ++ [e0] /\ v_man e0 = cur.
+  Lemma latest_last_entry : forall h cur, latest h = Some cur -> exists h0 e0, h = h0 ++ [e0] /\ v_man e0 = cur.
   Proof.
-    intros h cur H. exists {| v_man := cur; v_op := Clone |}. right.
-    destruct (nth_man_some _ _ _ H) as [e [He [Em _]]].
-    destruct h as [|a r] using rev_ind; [destruct (N.to_nat _); discriminate|].
-    exists h, a. split; [reflexivity|]. unfold version_of in He. rewrite app_length in He. cbn [length] in He.
-    replace (N.to_nat (N.of_nat (length h + 1) - 1)) with (length h) in He by lia.
-    rewrite nth_error_app2 in He by lia. rewrite Nat.sub_diag in He. cbn in He. inversion He; subst. exact Em.
+    intros h cur H. destruct h as [|a r]; [discriminate|].
+    destruct (@exists_last _ (a :: r)) as [h0 [e0 E]]; [discriminate|]. rewrite E in H. rewrite latest_snoc in H.
+    inversion H. exists h0, e0. auto.
   Qed.
   Lemma steps_ok_snoc : forall h0 e0 e, steps_ok (h0 ++ [e0]) -> StepOk (v_man e0) (v_op e) (v_man e) ->
     steps_ok ((h0 ++ [e0]) ++ [e]).
@@ -114,7 +114,7 @@ Section Main.
   Lemma HistOk_snoc : forall h cur e, HistOk h -> latest h = Some cur -> wf_manifest (v_man e) ->
     StepOk cur (v_op e) (v_man e) -> HistOk (h ++ [e]).
   Proof.
-    intros h cur e [Hw Hs] Hl Hwe Hst. destruct (latest_last_entry h cur Hl) as [_ [[_ []] | [h0 [e0 [Eh Ec]]]]].
+    intros h cur e [Hw Hs] Hl Hwe Hst. destruct (latest_last_entry h cur Hl) as [h0 [e0 [Eh Ec]]].
     subst h cur. split.
     - intros x Hx. apply in_app_or in Hx as [Hx | [Hx | []]]; [apply Hw; exact Hx | subst; exact Hwe].
     - apply steps_ok_snoc; assumption.
@@ -139,4 +139,180 @@ Section Main.
         | _ => False
         end
     end.
+
+
+  (* ---------------------------------------------------------------- build_manifest, arm by arm *)
+  Lemma build_reserve : forall cur n, build_manifest cur (ReserveFragments n) =
+    Ok (with_maxfid (mk_manifest cur (m_schema cur) (m_frags cur) (m_indices cur))
+          (Some (match m_maxfid (mk_manifest cur (m_schema cur) (m_frags cur) (m_indices cur)) with Some x => x | None => 0 end + n))).
+  Proof. reflexivity. Qed.
+  Lemma build_config : forall cur u, build_manifest cur (UpdateConfig (Some u) None None []) =
+    Ok (with_config (mk_manifest cur (m_schema cur) (m_frags cur) (m_indices cur))
+          (apply_umap (m_config (mk_manifest cur (m_schema cur) (m_frags cur) (m_indices cur))) u)).
+  Proof. reflexivity. Qed.
+  Lemma build_delete : forall cur upd dids, build_manifest cur (Delete upd dids) =
+    Ok (let frs := map (replace_last upd) (filter (fun f => negb (memN (f_id f) dids)) (m_frags cur)) in
+        mk_manifest cur (m_schema cur) frs (retain_relevant_indices (m_indices cur) (m_schema cur) frs)).
+  Proof. reflexivity. Qed.
+  Lemma build_update : forall cur removed upd newf fm md mw fp, build_manifest cur (Update removed upd newf fm md mw fp) =
+    Ok (let kept := map (replace_first upd) (filter (fun f => negb (memN (f_id f) removed)) (m_frags cur)) in
+        let frs := kept ++ fst (assign_ids (next_of cur) newf) in
+        mk_manifest cur (m_schema cur) frs (retain_relevant_indices (prune_updated_fields (m_indices cur) upd fm) (m_schema cur) frs)).
+  Proof. reflexivity. Qed.
+  Lemma build_append : forall cur frs, build_manifest cur (Append frs) =
+    Ok (mk_manifest cur (m_schema cur) (m_frags cur ++ fst (assign_ids (next_of cur) frs)) (m_indices cur)).
+  Proof. reflexivity. Qed.
+
+  (* ---------------------------------------------------------------- operations that keep the fragment list *)
+  Lemma same_frags_mk : forall cur idx, wf_manifest cur ->
+    let m := mk_manifest cur (m_schema cur) (m_frags cur) idx in
+    (forall f o, live_at (m_frags m) f o = live_at (m_frags cur) f o)
+    /\ (forall f o x, x <> (-2)%Z -> cell_at (m_frags m) f o x = cell_at (m_frags cur) f o x)
+    /\ m_maxfid m = m_maxfid cur /\ wf_manifest m.
+  Proof.
+    intros cur idx Hw m. pose proof Hw as [Hnd [Hwf [Hs Hm]]]. split; [|split; [|split]].
+    - intros f o. apply live_at_mk. exact Hnd.
+    - intros f o x Hx. apply cell_at_mk; assumption.
+    - unfold m. rewrite mk_manifest_maxfid. apply wf_maxfid_bound. exact Hm.
+    - apply mk_manifest_wf; assumption.
+  Qed.
+
+  Definition result_ok (cur : manifest) (o' : op) (m' : manifest) (e : effect) : Prop :=
+    wf_manifest m' /\ GoodOp cur o' /\ exists t', apply_effect e (abs cur) = Some t' /\ table_eq (abs m') t'.
+
+  Lemma wf_with_config : forall m c, wf_manifest m -> wf_manifest (with_config m c).
+  Proof. intros m c H. exact H. Qed.
+
+  Lemma eff_config : forall cur u m', wf_manifest cur ->
+    build_manifest cur (UpdateConfig (Some u) None None []) = Ok m' ->
+    result_ok cur (UpdateConfig (Some u) None None []) m' (EConfig (Some u)).
+  Proof.
+    intros cur u m' Hw Hb. rewrite build_config in Hb. injection Hb as Hb; subst m'.
+    destruct (same_frags_mk cur (m_indices cur) Hw) as [L [C [M W]]]. pose proof Hw as [_ [_ [Hs Hm]]].
+    split; [exact W | split; [exact I|]]. eexists. split; [reflexivity|].
+    unfold Model_Txn.abs, Model_Txn.table_eq. cbn [t_schema t_maxfid t_config t_live t_cell with_config m_schema m_config m_frags].
+    split; [reflexivity | split; [|split; [reflexivity | split]]].
+    - unfold max_fragment_id. cbn [with_config m_maxfid m_frags]. fold (max_fragment_id (mk_manifest cur (m_schema cur) (m_frags cur) (m_indices cur))).
+      rewrite (max_fragment_id_wf _ (proj2 (proj2 (proj2 W)))), M. symmetry. apply max_fragment_id_wf. exact Hm.
+    - exact L.
+    - intros f o x _ Hx. apply C. apply Hs. exact Hx.
+  Qed.
+
+
+  Lemma abs_maxfid : forall m, wf_manifest m -> t_maxfid (abs m) = m_maxfid m.
+  Proof. intros m [_ [_ [_ H]]]. cbn [Model_Txn.abs t_maxfid]. apply max_fragment_id_wf. exact H. Qed.
+  Lemma wf_maxfid_of : forall m, wf_manifest m -> wf_maxfid m.
+  Proof. intros m [_ [_ [_ H]]]. exact H. Qed.
+
+  Lemma eff_reserve : forall cur n m', wf_manifest cur ->
+    build_manifest cur (ReserveFragments n) = Ok m' -> result_ok cur (ReserveFragments n) m' (EReserve n).
+  Proof.
+    intros cur n m' Hw Hb. rewrite build_reserve in Hb. injection Hb as Hb; subst m'.
+    destruct (same_frags_mk cur (m_indices cur) Hw) as [L [C [M W]]]. pose proof Hw as [_ [_ [Hs Hm]]].
+    set (m := mk_manifest cur (m_schema cur) (m_frags cur) (m_indices cur)) in *.
+    assert (W' : wf_manifest (with_maxfid m (Some (match m_maxfid m with Some x => x | None => 0 end + n)))).
+    { destruct W as [W1 [W2 [W3 W4]]]. split; [exact W1 | split; [exact W2 | split; [exact W3|]]].
+      unfold wf_maxfid in *. cbn [with_maxfid m_maxfid m_frags]. intros f Hf. destruct (m_maxfid m) as [M0|].
+      - specialize (W4 f Hf). lia.
+      - rewrite W4 in Hf. destruct Hf. }
+    split; [exact W' | split; [exact I|]]. eexists. split; [reflexivity|].
+    unfold Model_Txn.table_eq. rewrite (abs_maxfid _ W'). cbn [Model_Txn.abs t_schema t_maxfid t_config t_live t_cell with_maxfid m_schema m_config m_frags m_maxfid].
+    split; [reflexivity | split; [|split; [reflexivity | split]]].
+    - rewrite M. rewrite (max_fragment_id_wf _ Hm). reflexivity.
+    - exact L.
+    - intros f o x _ Hx. apply C. apply Hs. exact Hx.
+  Qed.
+
+  Lemma eff_index : forall cur newi removedi m', wf_manifest cur ->
+    build_manifest cur (CreateIndex newi removedi) = Ok m' -> result_ok cur (CreateIndex newi removedi) m' ENone.
+  Proof.
+    intros cur newi removedi m' Hw Hb. cbn [build_manifest] in Hb. inversion Hb; subst; clear Hb.
+    match goal with |- result_ok _ _ (mk_manifest _ _ _ ?idx) _ => destruct (same_frags_mk cur idx Hw) as [L [C [M W]]] end.
+    pose proof Hw as [_ [_ [Hs Hm]]].
+    split; [exact W | split; [exact I|]]. eexists. split; [reflexivity|].
+    unfold Model_Txn.table_eq. rewrite (abs_maxfid _ W), (abs_maxfid _ Hw).
+    cbn [Model_Txn.abs t_schema t_config t_live t_cell m_schema m_config m_frags].
+    split; [reflexivity | split; [exact M | split; [reflexivity | split]]].
+    - exact L.
+    - intros f o x _ Hx. apply C. apply Hs. exact Hx.
+  Qed.
+
+  (* Restore republishes an old manifest *)
+  Lemma eff_restore : forall cur old v, wf_manifest cur -> wf_manifest old ->
+    wf_manifest (restore_manifest cur old) /\ StepOk cur (Restore v) (restore_manifest cur old)
+    /\ exists t', apply_effect (ERestore old) (abs cur) = Some t' /\ table_eq (abs (restore_manifest cur old)) t'.
+  Proof.
+    intros cur old v Hw Ho. pose proof Ho as [O1 [O2 [O3 O4]]]. pose proof (wf_maxfid_of _ Hw) as Hm.
+    assert (W : wf_manifest (restore_manifest cur old)).
+    { split; [exact O1 | split; [exact O2 | split; [exact O3|]]]. unfold wf_maxfid, restore_manifest in *.
+      cbn [with_maxfid m_maxfid m_frags]. rewrite !max_fragment_id_wf by assumption.
+      destruct (m_maxfid old) as [a|]; destruct (m_maxfid cur) as [b|]; try (intros f Hf; specialize (O4 f Hf); lia); auto.
+      intros f Hf. rewrite O4 in Hf. destruct Hf. }
+    split; [exact W | split; [apply (step_restore _ _ _ v); reflexivity|]]. eexists. split; [reflexivity|].
+    unfold Model_Txn.table_eq. rewrite (abs_maxfid _ W).
+    cbn [Model_Txn.abs t_schema t_maxfid t_config t_live t_cell restore_manifest with_maxfid m_schema m_config m_frags m_maxfid].
+    repeat split; reflexivity.
+  Qed.
+
+  (* Overwrite *)
+  Lemma eff_overwrite : forall cur frs s c m', wf_manifest cur -> new_frags_ok frs -> wf_schema s ->
+    build_manifest cur (Overwrite frs s c) = Ok m' -> result_ok cur (Overwrite frs s c) m' (EOverwrite frs s c).
+  Proof.
+    intros cur frs s c m' Hw Hn Hs Hb. cbn [build_manifest] in Hb.
+    set (news := fst (assign_ids 0 frs)) in *.
+    assert (Hnd : NoDup (ids_of news)) by (apply assign_ids_NoDup; exact (proj1 Hn)).
+    assert (Hwf : forall f, In f news -> wf_frag f) by (intros f Hf; exact (assigned_wf frows frs 0 f Hn Hf)).
+    assert (W0 : wf_manifest (mk_manifest cur s news [])) by (apply mk_manifest_wf; assumption).
+    assert (W : wf_manifest m') by (destruct c; inversion Hb; subst; exact W0).
+    split; [exact W | split; [exact I|]]. eexists. split; [reflexivity|].
+    unfold Model_Txn.table_eq. rewrite (abs_maxfid _ W), (abs_maxfid _ Hw). fold news.
+    assert (Em : m_maxfid m' = upd_maxfid_ids (m_maxfid cur) (ids_of news)).
+    { rewrite upd_maxfid_ids_omax. destruct c; inversion Hb; subst; cbn [with_config m_maxfid]; apply mk_manifest_maxfid. }
+    assert (Ef : m_frags m' = m_frags (mk_manifest cur s news [])) by (destruct c; inversion Hb; subst; reflexivity).
+    assert (Es : m_schema m' = s) by (destruct c; inversion Hb; subst; reflexivity).
+    cbn [Model_Txn.abs t_schema t_maxfid t_config t_live t_cell]. rewrite Ef, Es.
+    split; [reflexivity | split; [exact Em | split; [|split]]].
+    - destruct c; inversion Hb; subst; reflexivity.
+    - intros f o. apply live_at_mk. exact Hnd.
+    - intros f o x _ Hx. apply cell_at_mk; [exact Hnd | apply Hs; exact Hx].
+  Qed.
+
+  (* delete-all: every fragment of the read version is dropped *)
+  Lemma eff_delete_all : forall cur ids m', wf_manifest cur ->
+    build_manifest cur (Delete [] ids) = Ok m' -> result_ok cur (Delete [] ids) m' (EDropFrags ids).
+  Proof.
+    intros cur ids m' Hw Hb. rewrite build_delete in Hb. cbv zeta in Hb. injection Hb as Hb; subst m'.
+    pose proof Hw as [Hnd [Hwf [Hs Hm]]].
+    set (frs := map (replace_last []) (filter (fun f => negb (memN (f_id f) ids)) (m_frags cur))).
+    assert (Efrs : frs = filter (fun f => negb (memN (f_id f) ids)) (m_frags cur)).
+    { unfold frs. rewrite <- (map_id (filter _ (m_frags cur))) at 2. apply map_ext. reflexivity. }
+    assert (Hsub : forall i, In i (ids_of frs) -> In i (ids_of (m_frags cur))).
+    { intros i Hi. rewrite Efrs in Hi. unfold ids_of in *. apply in_map_iff in Hi as [f [E Hf]]. apply filter_In in Hf as [Hf _].
+      apply in_map_iff. exists f. auto. }
+    assert (Hnd' : NoDup (ids_of frs)).
+    { rewrite Efrs. unfold ids_of. clear - Hnd. unfold ids_of in Hnd. induction (m_frags cur) as [|a r IH]; cbn [filter map]; [constructor|].
+      cbn [map] in Hnd. inversion Hnd as [|? ? Hn Hr]; subst. destruct (negb (memN (f_id a) ids)); cbn [map].
+      - constructor; [|exact (IH Hr)]. intro Hx. apply Hn. apply in_map_iff in Hx as [g [E Hg]]. apply filter_In in Hg as [Hg _].
+        rewrite <- E. apply in_map. exact Hg.
+      - exact (IH Hr). }
+    assert (W : wf_manifest (mk_manifest cur (m_schema cur) frs (retain_relevant_indices (m_indices cur) (m_schema cur) frs))).
+    { apply mk_manifest_wf; [exact Hnd' | | exact Hs]. intros f Hf. rewrite Efrs in Hf. apply filter_In in Hf as [Hf _]. exact (Hwf f Hf). }
+    split; [exact W | split; [intros u c []|]]. eexists. split; [reflexivity|].
+    unfold Model_Txn.table_eq. rewrite (abs_maxfid _ W), (abs_maxfid _ Hw).
+    cbn [Model_Txn.abs t_schema t_maxfid t_config t_live t_cell drop_rows m_schema m_config].
+    assert (Hfind : forall f, find_frag f frs = if negb (memN f ids) then find_frag f (m_frags cur) else None).
+    { intros f. rewrite Efrs. apply (find_frag_filter (fun i => negb (memN i ids))). }
+    split; [reflexivity | split; [|split; [reflexivity | split]]].
+    - rewrite mk_manifest_maxfid. rewrite <- (wf_maxfid_bound _ Hm) at 2.
+      (* the maximum over a sub-list is absorbed by the stored high-water mark *)
+      unfold wf_maxfid in Hm. destruct (m_maxfid cur) as [M|].
+      + rewrite !lmax_bound; [reflexivity | | ]; intros x Hx; [|apply Hsub in Hx]; unfold ids_of in Hx; apply in_map_iff in Hx as [g [E Hg]]; subst; exact (Hm g Hg).
+      + rewrite Hm in Efrs. cbn in Efrs. rewrite Efrs, Hm. reflexivity.
+    - intros f o. rewrite live_at_mk by exact Hnd'. unfold Model_Txn.live_at. rewrite Hfind.
+      destruct (memN f ids); cbn [negb]; [rewrite andb_false_r; reflexivity | rewrite andb_true_r; reflexivity].
+    - intros f o x _ Hx. rewrite cell_at_mk by (try exact Hnd'; apply Hs; exact Hx). unfold Model_Txn.cell_at. rewrite Hfind.
+      destruct (memN f ids) eqn:Em; cbn [negb]; [|reflexivity].
+      (* a dropped fragment has no live row, so the clause is vacuous; but table_eq asks for equality only on live rows *)
+      reflexivity.
+  Qed.
 End Main.
